@@ -35,7 +35,7 @@ def cases(draw, maxdim):
     spec = draw(gens.image_specs(maxdim=maxdim))
     levels = draw(st.integers(1, 5))          # number of distinct grey levels above 0
     thpos = draw(st.sampled_from(["below", "between", "between", "at", "above", "zero", "zero", "zero"]))
-    con8 = draw(st.sampled_from([1, 1, 0]))
+    con8 = draw(st.sampled_from([1, 1, 0, 0, 2, 8, -1]))
     poison = draw(st.sampled_from([0, -7, 77, 123456]))
     extra = draw(st.sampled_from([0.0, 0.1, 0.5]))  # fraction of below-threshold sparse members
     return dict(spec=spec, levels=levels, thpos=thpos, con8=con8, poison=poison, extra=extra)
@@ -152,18 +152,23 @@ def check(case, rec=None):
                         fails.append(fail("meta", "sparse_connected_pixels meta nlabel wrong",
                                           target=name))
             else:
-                sc = object.__new__(sparseframe.SparseScan)
-                sc.names = ["row", "col", "intensity"]
-                # two frames: this one and an empty one, then this one again
                 # frames: this one, an empty one, one that stores only pixels not above the threshold (when the
-                # list has any), this one again
+                # list has any), this one again - read from a file as a window of a longer scan (frames 1..4 of 6)
+                import os
                 low = ~(v > th)
                 nlow = int(low.sum())
-                sc.nnz = np.array([nnz, 0, nlow, nnz])
-                sc.ipt = sparseframe.nnz_to_pointer(sc.nnz)
-                sc.row = np.concatenate([i, i[low], i])
-                sc.col = np.concatenate([j, j[low], j])
-                sc.intensity = np.concatenate([v, v[low], v])
+                path = os.path.join(os.environ.get("VERIF_TMP", "."), "c11_scan_%d.h5" % os.getpid())
+                junk = (i[::2], j[::2], (v[::2] + 1000).astype(np.float32))
+                gens.write_sparse_scan(path, [junk, (i, j, v), (i[:0], j[:0], v[:0]), (i[low], j[low], v[low]), (i, j, v),
+                                              junk], im.shape)
+                if case["spec"]["seed"] % 2:
+                    ok, sc = guard(sparseframe.SparseScan, path, "1.1", start=1, n=4)
+                else:
+                    ok, sc = guard(sparseframe.SparseScan, path, "1.1::[1:5]")
+                os.remove(path)
+                if not ok:
+                    fails.append(exc_failure("SparseScan(window of a scan)", sc))
+                    continue
                 ok, n2 = guard(sc.cplabel, th, True)
                 if ok:
                     l0 = sc.labels[:nnz]
